@@ -41,6 +41,8 @@ type Task struct {
 	IsBody bool // started by the program (future body), not by the harness
 	Steps  int64
 	User   interface{}
+	// SpawnObj is the object handed to simhook.Spawn (the *Future whose body this task runs).
+	SpawnObj interface{}
 
 	wake    chan int
 	state   TaskState
@@ -74,6 +76,7 @@ type Ev struct {
 	Kind string
 	A, B string
 	N    int64
+	Obj  interface{} // identity of the object a hook event refers to (never hashed or printed)
 }
 
 type HangReport struct {
@@ -126,6 +129,7 @@ type Sim struct {
 	Aborted  string // reason the run was cut short ("" if it ran to completion)
 	Hang     *HangReport
 	Leaked   int
+	Panics   []string // panics of task goroutines (each would have ended the process)
 	Ambig    int // selects entered with more than one ready case (run must be discarded)
 
 	seq        uint64
@@ -140,6 +144,7 @@ type Sim struct {
 	Preempted  Counters
 	BlockWakes Counters
 	OnStep     StepHook
+	RecPoints  []string // hook points whose passage is recorded as a history event
 	cancels    []context.CancelFunc
 	endSync    int64
 	gates      []string
@@ -284,9 +289,38 @@ func (s *Sim) newTask(name string, body bool) *Task {
 }
 
 func taskMain(s *Sim, t *Task) {
-	defer s.TaskEnd(t)
+	defer taskMainEnd(s, t)
 	s.TaskStart(t)
 	t.fn(t)
+}
+
+func taskMainEnd(s *Sim, t *Task) {
+	if r := recover(); r != nil {
+		s.TaskPanic(t, r)
+	}
+	s.TaskEnd(t)
+}
+
+// TaskPanic records a panic that reached the top of a task's goroutine.
+//
+//go:norace
+func (s *Sim) TaskPanic(handle interface{}, value interface{}) {
+	raceOff()
+	msg := panicString(value)
+	s.mu.Lock()
+	s.Panics = append(s.Panics, msg)
+	s.mu.Unlock()
+	raceOn()
+}
+
+func panicString(v interface{}) string {
+	switch x := v.(type) {
+	case error:
+		return x.Error()
+	case string:
+		return x
+	}
+	return "non-error panic value"
 }
 
 // ---- token hand-off ----
@@ -394,6 +428,12 @@ func (s *Sim) Yield(point string, obj interface{}) {
 		return
 	}
 	s.checkPoison()
+	for _, rp := range s.RecPoints {
+		if rp == point {
+			s.Rec("point", point, "", 0)
+			s.Events[len(s.Events)-1].Obj = obj
+		}
+	}
 	s.hookPoint(t, point, true)
 }
 
@@ -544,7 +584,7 @@ func (s *Sim) Spawn(obj interface{}) interface{} {
 	s.checkPoison()
 	s.Points.Add("spawn", 1)
 	t := s.newTask("body-of-"+s.cur.Name, true)
-	t.obj = obj
+	t.SpawnObj = obj
 	return t
 }
 
@@ -575,6 +615,10 @@ func (s *Sim) TaskEnd(handle interface{}) {
 	raceOff()
 	s.mu.Lock()
 	wasRunning := t.state == tsRunning
+	if wasRunning && !s.poisoned && s.cur == t {
+		s.Rec("task-end", t.Name, "", int64(t.ID))
+		s.Events[len(s.Events)-1].Obj = t.SpawnObj
+	}
 	t.state = tsDone
 	p := s.poisoned
 	s.mu.Unlock()
@@ -627,8 +671,10 @@ func (s *Sim) describeTasks() []string {
 //
 //go:norace
 func (s *Sim) Run() {
-	raceOff()
+	// created with the detector's synchronisation handling on: the time package initialises process-wide
+	// state behind a sync.Once the first time a timer is made
 	s.horizon = time.After(s.cfg.Horizon)
+	raceOff()
 	var enabled []*Task
 	for {
 		synctest.Wait()
